@@ -27,7 +27,7 @@ ASSUMPTIONS = ["sample-moment convergence is replaced by x = mean + L e (owned b
                "rsample(base_samples=) is documented for an N x N root: skipped for the N x (N+2) RootLinearOperator representation",
                "index tensors in one dimension at a time; expressions torch rejects / selecting nothing / leaving no dimension are outside the domain"]
 
-KINDS = ["dense", "lo", "diag", "chol", "root", "rootwide", "sum", "bcast"]
+KINDS = ["dense", "lo", "diag", "chol", "root", "rootwide", "sum", "sumroot", "bcast"]
 SHAPES = [(), (2,), (1,), (2, 1), (3, 2)]
 
 
@@ -51,6 +51,9 @@ def mk(g, bs, N, kind):
     if kind == "sum":
         dg = util.rand(g, *bs, N) + 0.5
         return to_linear_operator(C) + DiagLinearOperator(dg), C + torch.diag_embed(dg)
+    if kind == "sumroot":  # dense + low-rank root (what a sum kernel with a LinearKernel summand evaluates to)
+        R = util.randn(g, *bs, N, 2)
+        return to_linear_operator(C) + RootLinearOperator(R), C + R @ R.mT
     if kind == "bcast":  # covariance without batch dims, broadcast against a batched mean
         C0 = util.spd(g, N)
         return to_linear_operator(C0), C0
